@@ -43,11 +43,20 @@ def make_payload(p, challenges):
     ev = C.mk_event(p["signer"], kind=p["kind"], created_at=NOW - p["age"], tags=tags, content="")
     if p["sig"] == "bad":
         ev["sig"] = ev["sig"][:-2] + ("00" if ev["sig"][-2:] != "00" else "01")
+    elif p["sig"] == "lifted":
+        # id and signature of another event of the same key (a note it once published): a genuine signature, but of something
+        # else - nothing binds it to this challenge, relay, kind or time
+        other = C.mk_event(p["signer"], kind=1, created_at=NOW - 5000, tags=[["t", "note"]], content="an old note")
+        ev["id"], ev["sig"] = other["id"], other["sig"]
+    elif p["sig"] == "noid":
+        # correctly signed, sent without the id field (the relay may compute it)
+        ev.pop("id", None)
     return ev
 
 
 def abstract(p):
-    return {"signer": p["signer"], "sig": p["sig"], "kind": p["kind"], "age": p["age"],
+    # (to the contract a lifted signature is a bad one: it does not sign this answer; an answer without id field is as good as its signature)
+    return {"signer": p["signer"], "sig": {"lifted": "bad", "noid": "ok"}.get(p["sig"], p["sig"]), "kind": p["kind"], "age": p["age"],
             "relays": [relay_abs(r) for r in p["relays_c"]], "chals": list(p["chals"])}
 
 
@@ -58,7 +67,7 @@ def payload_grammar(rnd, tier):
     """single deviations from a valid payload, all pairs of deviations, and a seeded sample of the full product"""
     dims = {
         "signer": ["A", "B"],
-        "sig": ["ok", "bad"],
+        "sig": ["ok", "bad", "lifted"],
         "kind": [22242, 22243, 1],
         "age": [-601, -600, -599, -1, 0, 1, 599, 600, 601, 100000],
         "relays_c": [["exact"], ["exact2"], ["substring"], ["prefix"], ["empty"], ["superstring"], ["foreign"], [], ["exact", "foreign"],
@@ -312,7 +321,7 @@ def _ws_worker(payload):
 
 
 def ws_scenarios(rnd, n):
-    bad = [dict(VALID, sig="bad"), dict(VALID, chals=["c2"]), dict(VALID, relays_c=["foreign"]), dict(VALID, age=601), dict(VALID, kind=1),
+    bad = [dict(VALID, sig="bad"), dict(VALID, sig="lifted"), dict(VALID, chals=["c2"]), dict(VALID, relays_c=["foreign"]), dict(VALID, age=601), dict(VALID, kind=1),
            dict(VALID, chals=[]), dict(VALID, relays_c=[])]
     out = []
     for _ in range(n):
